@@ -58,6 +58,14 @@ fn node_cfg_dev(rng: &mut impl Rng, mode: Mode, flavour: u64, focus: &str, idx: 
     } else {
         TIMEOUTS[rng.gen_range(0..TIMEOUTS.len())]
     };
+    if focus == "C12" && flavour % 2 == 0 {
+        // the runs that replay handshake datagrams next to established peers: routes that live long enough to be seen
+        // pointing at a peer that went away
+        c.peer_timeout = 300;
+        if c.claims.is_empty() && !tap && (mode == Mode::Router || mode == Mode::Normal) {
+            c.claims = vec![UNIVERSE[idx % UNIVERSE.len()].to_string()];
+        }
+    }
     c.switch_timeout = [5, 30, 300][rng.gen_range(0..3)];
     if rng.gen_bool(0.3) {
         c.keepalive = Some(if focus == "C15" { [0, 1, 2, 59, 600, 40000][rng.gen_range(0..6)] } else { [1, 7, 30, 100][rng.gen_range(0..4)] });
@@ -320,6 +328,7 @@ pub fn run(tier: &str, out_path: &str, first: u64, count: u64, focus: &str) -> V
             "C11" => [0, 0, 4, 1, 5, 2, 0, 7][(*k % 8) as usize],
             "C13" => [1, 3, 1, 5, 2, 0, 6, 3][(*k % 8) as usize],
             "C10" => [0, 1, 2, 3, 4, 5, 6, 7][(*k % 8) as usize],
+            "C12" => [0, 1, 0, 2, 0, 1, 4, 0][(*k % 8) as usize],
             _ => *k % 3,
         };
         match m {
